@@ -16,7 +16,13 @@ if [ -n "${MUT_FROM_HEAD:-}" ]; then
   # tar -m: fresh mtimes so that cargo rebuilds whatever differs from the cached build
   EXP=$MV.export; rm -rf $EXP; mkdir -p $EXP
   git -C /verif archive HEAD | tar -x -m -C $EXP
-  rsync -a --delete --exclude lean/.lake --exclude .build $EXP/ $MV/
+  # relocate paths in the export, then copy only what differs by CONTENT (unchanged files keep their
+  # mtime in the copy, so cargo / lake rebuild only what really changed)
+  grep -rlE "/verif|/repo" $EXP/check $EXP/tools $EXP/harness/Cargo.toml $EXP/harness/.cargo/config.toml $EXP/harness/src 2>/dev/null | while read f; do
+    sed -i "s#/verif#$MV#g; s#/repo#$MW#g" "$f"
+  done
+  cp $MW/Cargo.lock $EXP/harness/Cargo.lock 2>/dev/null
+  rsync -rlpgoD --checksum --delete --exclude lean/.lake --exclude .build $EXP/ $MV/
   rm -rf $EXP
   if [ ! -d $MV/lean/.lake ]; then cp -r /verif/lean/.lake $MV/lean/.lake 2>/dev/null; fi
 else
